@@ -34,14 +34,16 @@ from runner import Exploration, Finding
 
 SPEC = {
     "prop": "C09",
-    "lean_targets": ["InfernoVerif.Props.C09", "InfernoVerif.Model.Split", "InfernoVerif.Drv.Proto"],
-    "prop_files": ["InfernoVerif/Props/C09.lean"],
+    "lean_targets": ["InfernoVerif.Props.C09", "InfernoVerif.Props.C09Glue", "InfernoVerif.Model.Split", "InfernoVerif.Drv.Proto"],
+    "prop_files": ["InfernoVerif/Props/C09.lean", "InfernoVerif/Props/C09Glue.lean"],
+    "translate": ["Routes"],
+    "driver_targets": ["InfernoVerif.Model.Split", "InfernoVerif.Drv.Proto"],
     "lemma_files": ["InfernoVerif/Lemmas/Split.lean"],
     "model_files": ["InfernoVerif/Model/Split.lean"],
     "driver": "drivers/C09.lean",
     "assumptions": [
         "the magnitudes a trainer routes (traces x spikes, kernel outputs, the homeostatic term) are taken from the trainer's own monitors, recomputed with the expressions of `forward`; that they equal the documented sums over spike pairs is C08 / C18, that traces with |lr| amplitudes are non-negative is C07",
-        "routing tables and clamp splits are transcribed by hand into Model/Split.lean (the planned AST translator is not available); tied to the code by differential execution on every run",
+        "routing tables, their match subjects and the clamp splits in Model/Split.lean are hand-written AND proved equal (Props/C09Glue.lean) to Gen/Routes.lean, which harness/sites.py regenerates on every run from the match statements / updater assignments inside each trainer's forward; how the routed magnitudes are computed (einsum, batch reduction, per-sample partition) is tied by differential execution only",
         "theorems over the reals; comparison in float64 to 1e-12 relative",
         "homeostasis: the FULL statement (depressive part >= 0, net = k) is false for the code (known finding D9, key C09:homeostasis:neg-part-sign); proved: the potentiating half and the negation witness",
         "layers: LinearDense(3->2) and LinearDirect(3), receptive axis of length 1; batch sizes 1..3; device CPU",
